@@ -48,6 +48,7 @@ type HOp struct {
 	Code int    `json:"code,omitempty"` // return: status code (0 = nil error)
 	Msg  int64  `json:"msg,omitempty"`  // return: status message token
 	Ctx  bool   `json:"ctx,omitempty"`  // return: the handler context's error
+	Raw  string `json:"raw,omitempty"`  // return: a raw error of the handler's own making: canceled | deadline | plain | eof
 }
 
 type Step struct {
@@ -229,6 +230,9 @@ func (r *cwRig) streamHandler(kind string, s grpc.ServerStream) error {
 			var err error
 			if op.Ctx {
 				err = s.Context().Err()
+			} else if op.Raw != "" {
+				err = map[string]error{"canceled": context.Canceled, "deadline": context.DeadlineExceeded,
+					"plain": fmt.Errorf("plain failure"), "eof": io.EOF}[op.Raw]
 			} else if op.Code != 0 {
 				err = status.Error(codes.Code(op.Code), fmt.Sprintf("m%d", op.Msg))
 			}
